@@ -20,7 +20,9 @@ func (s *sutA) oracle(w []string, res opResult, roundsBefore int) (string, strin
 	after := map[string]map[int][]byte{"A": afterA, "B": afterB}
 	strat := map[string]string{"A": s.ba, "B": s.ab} // replicator filling that side
 	other := map[string]string{"A": "B", "B": "A"}
-	d := func(f string, a ...interface{}) string { return fmt.Sprintf("%v -> %s: ", w, res.reply) + fmt.Sprintf(f, a...) }
+	d := func(f string, a ...interface{}) string {
+		return fmt.Sprintf("%v -> %s: ", w, res.reply) + fmt.Sprintf(f, a...)
+	}
 
 	var fired, mattering, nonNF []call
 	for _, c := range res.calls {
